@@ -473,10 +473,14 @@ def expand(template_path, std=True):
             appends = []
             value_drops = []
             sigrewrites = []
+            annots_all = []
             i += 1
             while tl[i].strip() != "//@end":
                 t = tl[i].strip()
-                if t.startswith("//@rewrite ") or t.startswith("//@annot "):
+                if t.startswith("//@annotall "):
+                    mm = re.match(r"//@annotall <<<(.*)>>> => <<<(.*)>>>\s*$", t)
+                    annots_all.append((mm.group(1).replace("\\n", "\n"), mm.group(2).replace("\\n", "\n")))
+                elif t.startswith("//@rewrite ") or t.startswith("//@annot "):
                     mm = re.match(r"//@(rewrite|annot) <<<(.*)>>> => <<<(.*)>>>\s*$", t)
                     if not mm:
                         raise Undecided("bad directive: " + t)
@@ -542,10 +546,15 @@ def expand(template_path, std=True):
                 sig = re.sub(r"\bfn\s+%s\b" % re.escape(name), "fn " + emit_name, sig, count=1)
                 g.log.rule("R4: trait-impl method emitted as inherent/free fn with the same body (%s -> %s)" % (name, emit_name))
             if "ret" in kv:
-                mm = re.search(r"\)\s*->\s*(.+?)\s*(where\b.*)?$", sig, re.S)
-                if not mm:
+                ms = list(re.finditer(r"\)\s*->\s*", sig))
+                if not ms:
                     raise Undecided("fn %s: no return type to name" % name)
-                sig = sig[:mm.start()] + ") -> (%s: %s)" % (kv["ret"], mm.group(1)) + (" " + mm.group(2) if mm.group(2) else "")
+                last = ms[-1]
+                rest = sig[last.end():]
+                wm = re.search(r"\bwhere\b", rest)
+                rtype = rest[:wm.start()].strip() if wm else rest.strip()
+                wclause = rest[wm.start():] if wm else ""
+                sig = sig[:last.start()] + ") -> (%s: %s)" % (kv["ret"], rtype) + (" " + wclause if wclause else "")
             if "addsig" in kv:
                 pass
             body = strip_attrs(body)
@@ -563,6 +572,13 @@ def expand(template_path, std=True):
                 if not is_insertion(a, b):
                     raise Undecided("annotation for <<<%s>>> does not preserve the original text" % a)
                 body = body[:hits[0].start()] + b + body[hits[0].end():]
+                g.log.rule("Rannot: insert-only annotation (ghost iterator name / ghost statement); code text unchanged")
+            for (a, b) in annots_all:
+                if not is_insertion(a, b):
+                    raise Undecided("annotation for <<<%s>>> does not preserve the original text" % a)
+                body, cnt = anchor_regex(a).subn(lambda _m: b, body)
+                if cnt == 0:
+                    raise Undecided("lost anchor: annotation site <<<%s>>> not found in fn %s" % (a, name))
                 g.log.rule("Rannot: insert-only annotation (ghost iterator name / ghost statement); code text unchanged")
             if value_drops:
                 # fn returns a value: { BODY } -> { let __r = { BODY }; <drop>; __r }
